@@ -160,7 +160,20 @@ impl Visitor<Diagnostic> for LibraryRenderer {
         node: &DurationLiteral,
     ) -> Result<Self::Value, Diagnostic> {
         // Always write out as milliseconds. The largest unit is allowed to be "out of range"
-        let val = format!("TIME#{}ms", node.interval.whole_milliseconds());
+        let nanos = node.interval.whole_nanoseconds();
+        let mut val = format!("TIME#{}ms", node.interval.whole_milliseconds());
+        let sub_millis = (nanos % 1_000_000).unsigned_abs();
+        if sub_millis != 0 {
+            // Keep the part below a millisecond as a fraction
+            let sign = if nanos < 0 { "-" } else { "" };
+            let fraction = format!("{:06}", sub_millis);
+            val = format!(
+                "TIME#{}{}.{}ms",
+                sign,
+                (nanos / 1_000_000).unsigned_abs(),
+                fraction.trim_end_matches('0')
+            );
+        }
         self.write_ws(val.as_str());
         Ok(())
     }
